@@ -53,6 +53,10 @@ type config struct {
 	basePath string          // ends in '/'
 	usesFor  map[string]bool // actions that get middleware from Uses() (may name unimplemented actions)
 	groupMw  int
+	outer    string // non-empty: Resource is called inside Group(outer, ...)
+	outerMw  int    // middleware given to the outer group
+	outerUse int    // Use calls inside the outer group before Resource (the group chain is then built by append)
+	strict   bool   // StrictLastSlash: only the clauses that do not depend on the documented paths are asserted
 }
 
 func (c config) has(a string) bool {
@@ -76,7 +80,7 @@ func (c config) String() string {
 		us = append(us, a)
 	}
 	sort.Strings(us)
-	return fmt.Sprintf("actions=%v Uses()=%v(for %v) base=%q groupMw=%d", as, c.uses, us, c.basePath, c.groupMw)
+	return fmt.Sprintf("actions=%v Uses()=%v(for %v) base=%q groupMw=%d outer=%q(mw=%d,use=%d) strict=%v", as, c.uses, us, c.basePath, c.groupMw, c.outer, c.outerMw, c.outerUse, c.strict)
 }
 
 func (c config) resName() string {
@@ -94,18 +98,39 @@ func register(c config) *rux.Router {
 			b.uses[a] = []rux.HandlerFunc{mw("uses:" + a)}
 		}
 	}
-	r := rux.New()
+	var opts []func(*rux.Router)
+	if c.strict {
+		opts = append(opts, rux.StrictLastSlash)
+	}
+	r := rux.New(opts...)
 	var gm []rux.HandlerFunc
 	for i := 0; i < c.groupMw; i++ {
 		gm = append(gm, mw(fmt.Sprintf("group%d", i)))
 	}
-	r.Resource(c.basePath, newController(c.bits, c.uses, b), gm...)
+	if c.outer == "" {
+		r.Resource(c.basePath, newController(c.bits, c.uses, b), gm...)
+		return r
+	}
+	var om []rux.HandlerFunc
+	for i := 0; i < c.outerMw; i++ {
+		om = append(om, mw(fmt.Sprintf("outer%d", i)))
+	}
+	r.Group(c.outer, func() {
+		for i := 0; i < c.outerUse; i++ {
+			r.Use(mw(fmt.Sprintf("use%d", i)))
+		}
+		r.Resource(c.basePath, newController(c.bits, c.uses, b), gm...)
+	}, om...)
 	return r
+}
+
+func (c config) resPath() string {
+	return model.Normalize(c.outer+model.Normalize(c.basePath+c.resName(), false), false)
 }
 
 // expected table as a model.Table (so that "GET /res/create -> create, else show" follows from C01's semantics)
 func expected(c config) (*model.Table, []string) {
-	res := model.Normalize(c.basePath+c.resName(), false)
+	res := c.resPath()
 	tb := &model.Table{}
 	var acts []string
 	for _, a := range actions {
@@ -167,6 +192,12 @@ func checkProbe(r *rux.Router, c config, method, path string) string {
 		id = sm[1]
 	}
 	want := ""
+	for i := 0; i < c.outerMw && c.outer != ""; i++ {
+		want += fmt.Sprintf("<outer%d>", i)
+	}
+	for i := 0; i < c.outerUse && c.outer != ""; i++ {
+		want += fmt.Sprintf("<use%d>", i)
+	}
 	for i := 0; i < c.groupMw; i++ {
 		want += fmt.Sprintf("<group%d>", i)
 	}
@@ -181,7 +212,7 @@ func checkProbe(r *rux.Router, c config, method, path string) string {
 }
 
 func probePaths(c config, id string) []string {
-	res := model.Normalize(c.basePath+c.resName(), false)
+	res := c.resPath()
 	return []string{res, res + "/", res + "/create", res + "/" + id, res + "/" + id + "/edit", res + "/" + id + "/x", res + "/create/edit",
 		res + "/edit", res + "/" + id + "/edit/x", model.Normalize(c.basePath+"other", false), res + "x", "/"}
 }
@@ -235,12 +266,39 @@ func prop(t *rapid.T) {
 			c.usesFor[a] = true
 		}
 	}
+	if rapid.IntRange(0, 2).Draw(t, "insideGroup") == 0 {
+		c.outer = rapid.SampledFrom([]string{"/out", "/v1/x", "g"}).Draw(t, "outer")
+		c.outerMw = rapid.IntRange(0, 2).Draw(t, "outerMw")
+		c.outerUse = rapid.IntRange(0, 3).Draw(t, "outerUse")
+	}
+	c.strict = rapid.IntRange(0, 5).Draw(t, "strict") == 0
 	id := rapid.OneOf(rapid.StringMatching(`[a-z0-9]{1,4}`), rapid.SampledFrom([]string{"create", "edit", "42", "a.b", "%", "é"})).Draw(t, "id")
 	nuses := 0
 	for _, a := range actions {
 		if c.usesFor[a] && c.has(a) {
 			nuses++
 		}
+	}
+	if c.strict {
+		// the table is documented for the default options; under StrictLastSlash only the clauses that do not
+		// depend on the exact paths are asserted: which names exist, and "GET /res/create is never served by show"
+		ev.Class("strict-mode(names + create-never-show only)")
+		for rep := 0; rep < 2; rep++ {
+			r := register(c)
+			_, acts := expected(c)
+			if got := len(r.NamedRoutes()); got != len(acts) {
+				t.Fatalf("%s: %d named routes, %d actions implemented", c, got, len(acts))
+			}
+			for _, p := range []string{c.resPath() + "/create", c.resPath() + "/create/"} {
+				rec := httptest.NewRecorder()
+				r.ServeHTTP(rec, &http.Request{Method: "GET", URL: &url.URL{Path: p}, Header: http.Header{}})
+				ev.Eval()
+				if c.has("Create") && strings.Contains(rec.Body.String(), "[Show ") {
+					t.Fatalf("%s: GET %q was served by show: %q", c, p, rec.Body.String())
+				}
+			}
+		}
+		return
 	}
 	for rep := 0; rep < 3; rep++ {
 		r := register(c)
@@ -260,6 +318,9 @@ func prop(t *rapid.T) {
 	if (c.bits != 0 && c.bits != 127) || nuses >= 2 {
 		if nuses >= 2 {
 			ev.Class("uses-for->=2-actions")
+		}
+		if c.outer != "" && c.outerUse+c.outerMw >= 2 {
+			ev.Class("inside-group-with-appended-chain")
 		}
 		ev.NonTrivial(c.String()+id, func() string { return c.String() + " id=" + id })
 	}
